@@ -265,6 +265,16 @@ def r_who_write_semaphore(ctx: Ctx, rule="R01.4"):
             rep.ob(rule, "the semaphore object the waiters are parked on is bound once, by the constructor (never replaced)",
                    ctx.hosts_of(e.node) <= {"__init__"}, node=e.node,
                    detail=f"{e.node.func.short} rebinds {e.path}: tasks already waiting for room stay queued on the old object and are never admitted")
+    # nothing but acquire / release / locked is called on the pool semaphore (the setter may wake waiters)
+    for e in ctx.effects(fields=["_enough_room"], kinds=["wake", "sem-other"]):
+        if e.path != SLOT:
+            continue
+        if e.kind == "wake":
+            rep.ob(rule, "waiters of the pool semaphore are woken (a slot granted without a release) only by the pool_size setter", ctx.hosts_of(e.node) <= {"pool_size.setter"}, node=e.node,
+                   detail=f"{e.node.func.short} calls Semaphore._wake_up_next(): since Python 3.11 this takes a slot for the next waiter although none was released - "
+                          "one more task runs than the pool size")
+        else:
+            rep.ob(rule, "only acquire / release / locked are called on the pool semaphore", None, node=e.node, detail=f"unknown Semaphore method `{e.detail}`")
     # acquire sites: only _start_task takes pool slots
     acq = ctx.effects(fields=["_enough_room"], kinds=["acquire", "maybe-acquire"])
     rep.floor(rule, "acquire sites of the pool semaphore", len(acq), 1)
@@ -1126,3 +1136,44 @@ def r_spawner_registry_who(ctx: Ctx, rule: str):
             rep.ob(rule, f"{kind} on {fld} only by {sorted(allowed)}", hosts <= allowed and ctx.in_pool(e.node.func), node=e.node,
                    detail=f"{e.kind} {e.path} on behalf of {sorted(hosts)}")
     rep.floor(rule, "writes of the spawner registries", n, 12)
+
+
+# ---------------------------------------------------------------------- counters
+COUNTERS = {"num_running": "_tasks_running", "num_cancelled": "_tasks_cancelled", "num_ended": "_tasks_ended"}
+
+
+def r_counters(ctx: Ctx, rule: str, names=("num_running", "num_cancelled", "num_ended")):
+    """The public counters count their registry, all of it (stop_all() = stop(num_running) relies on it, and so does the
+    balance num_running + num_cancelled + num_ended = created - forgotten)."""
+    rep = ctx.rep
+    rep.rule(rule, "COUNTERS: num_running / num_cancelled / num_ended return len() of the running / cancelled / ended registry itself - "
+                   "not of a filtered or reduced view of it")
+    n = 0
+    for nm in names:
+        fld = COUNTERS[nm]
+        for c in ctx.pool_classes:
+            f = c.methods.get(nm)
+            if f is None or f.kind != "property":
+                continue
+            n += 1
+            P = ctx.eff.paths(f)
+            for r in [x for x in ctx.an.scope(f)._own_nodes() if isinstance(x, ast.Return) and x.value is not None]:
+                v = ctx.vals.resolve(f, r.value)
+                ok: Optional[bool] = None
+                why = ""
+                if isinstance(v, ast.Call) and isinstance(v.func, ast.Name) and v.func.id == "len" and len(v.args) == 1:
+                    a = ctx.vals.resolve(f, v.args[0])
+                    inner = a
+                    while isinstance(inner, ast.Call) and ((isinstance(inner.func, ast.Attribute) and inner.func.attr in ("keys", "values", "items", "copy") and not inner.args)
+                                                           or (isinstance(inner.func, ast.Name) and inner.func.id in ("list", "tuple", "set", "dict") and len(inner.args) == 1)):
+                        inner = inner.func.value if isinstance(inner.func, ast.Attribute) else inner.args[0]
+                    if isinstance(inner, ast.Attribute) and P.of(inner) == "self." + fld:
+                        ok = True
+                    elif any(isinstance(x, ast.Attribute) and P.of(x) == "self." + fld for x in ast.walk(a)):
+                        ok = False
+                        why = f"`{ast.unparse(a)[:70]}` leaves out part of {fld}: tasks that are still filed there are not counted"
+                elif any(isinstance(x, ast.Attribute) and (P.of(x) or "").startswith("self._tasks_") for x in ast.walk(v)):
+                    ok = None
+                    why = "cannot classify the computation"
+                rep.ob(rule, f"{nm} is the size of {fld}", ok, func=f, construct=r, detail=why)
+    rep.floor(rule, "counter properties", n, len(names))
